@@ -74,3 +74,35 @@ pub fn choices_target(data: &[u8]) {
     let (prop, rep) = run_choices(which, &choices);
     verdict(prop, &rep);
 }
+
+/// replay of a libFuzzer artifact outside libFuzzer
+pub fn replay_bytes(target: &str, data: &[u8]) -> (&'static str, Report) {
+    match target {
+        "c07_text" => {
+            let text = String::from_utf8_lossy(data).to_string();
+            ("C07", crate::checks::c07::judge_text(&text, crate::sut::Budget::FUZZ))
+        }
+        "c06_lex" => {
+            let text: String = data.iter().map(|b| if *b == b'\n' || (*b >= 32 && *b < 127) { *b as char } else { ' ' }).collect();
+            let (_, f, _) = crate::checks::c06::judge_lex(&text);
+            let mut rep = Report::new(format!("{:?}", text));
+            if let Some((s, d)) = f {
+                rep.fail(s, d);
+            }
+            ("C06", rep)
+        }
+        "c18_bracket" => {
+            let text = String::from_utf8_lossy(data).to_string();
+            let (_, _, f) = crate::checks::c18::judge_complete(&text);
+            let mut rep = Report::new(format!("{:?}", text));
+            if let Some((s, d)) = f {
+                rep.fail(s, d);
+            }
+            ("C18", rep)
+        }
+        _ => {
+            let (which, choices) = decode_choices(data);
+            run_choices(which, &choices)
+        }
+    }
+}
